@@ -191,6 +191,8 @@ func GetTemplateSize(version uint16, template []Field) int {
 	sum := 0
 	for _, templateField := range template {
 		if templateField.Length == 0xffff {
+			// variable-length: at least the one-byte length prefix
+			sum += 1
 			continue
 		}
 		sum += int(templateField.Length)
